@@ -452,6 +452,9 @@ class Engine:
         if isinstance(v, Ref):
             h = s.H(v)
             if isinstance(h, dict) and name in h and not isinstance(h, list):
+                hook = getattr(self, "read_hooks", {}).get((v.cls, name))
+                if hook is not None:
+                    hook(self, s, v)            # a contract may watch reads of a field (e.g. to state WHEN it may be looked at)
                 return [(h[name], s)]
             for c in self.mro(v.cls):
                 if (c, name) in self.attrs:
